@@ -9,6 +9,8 @@ area = "parse"
 driver = "drv_parse"
 cxx = False
 fixed_lines = 1
+# allocation requests of the library go through counting wrappers of the driver (op `p oom`)
+link_extra = ["-Wl,--wrap=malloc", "-Wl,--wrap=calloc", "-Wl,--wrap=realloc"]
 rule = ("scripts = 'p fmt <description of the style> <sect flags> <opt flags>' then groups of 'p root .', 'p render <style> "
         "<decor> <forest> <text>' (text = output of the Lean reference writer `Render.render`, produced by the model "
         "executable and re-checked by it on every run), 'p node' (real mpt_parse_node on that text; the spec "
@@ -267,6 +269,52 @@ def bigvalues(tier):
                 (h, adm), = render_all(reqs)
                 if h and adm:
                     out += assemble("big:%d:%s" % (L, kind), style, [(reqs[0][1], reqs[0][2], h)], 1)
+    return out
+
+
+def valsweep(tier):
+    """value length swept over EVERY length 240..720 (capacities of the text buffer of long values: 128*k - 64) and over
+    the capacities up to 65600 with their neighbours"""
+    lens = list(range(240, 721))
+    for cap in ([832, 960, 1088, 2112, 4160, 8256, 16448] + [32832, 65600]):
+        lens += [cap - 1, cap, cap + 1]
+    if tier != "quick":
+        lens += list(range(721, 2200)) + [128 * k - 64 + d for k in range(18, 514, 7) for d in (-1, 0, 1)]
+    reqs = [("brace" if i % 3 else ("sep", "bar", "enc")[(i // 3) % 3], 0 if i % 2 else 1,
+             forest_text([(b"k", bytes([97 + i % 26]) * L, None)])) for i, L in enumerate(lens)]
+    out = []
+    for style in STYLES:
+        sub = [q for q in reqs if q[0] == style]
+        res = render_all(sub)
+        items = [(d, f, h) for (s_, d, f), (h, adm) in zip(sub, res) if adm and h]
+        out += assemble("vlen", style, items, 12)
+    return out
+
+
+def pathfill(tier):
+    """sections whose accumulated path fills the path buffer exactly (capacities 64, 192, 320): header written `name{`,
+    inside an empty-named section, an empty-named option, a named one; one and two levels; expectation by 'p expect'"""
+    out = []
+    lines = [fmt_line("brace")]
+    caps = (64, 192, 320) if tier == "quick" else (64, 192, 320, 448, 576, 1088)
+    for cap in caps:
+        for n in range(cap - 4, cap + 3):
+            for two in (False, True):
+                if two and n < 4:
+                    continue
+                names = [b"n" * n] if not two else [b"a", b"m" * (n - 2)]
+                for inner_t, inner_f in ((b"{\nx=1\n}\n", [(b"", None, [(b"x", b"1", None)])]),
+                                         (b"{\n{\ny=2\n}\n}\n", [(b"", None, [(b"", None, [(b"y", b"2", None)])])]),
+                                         (b"b{\nx=1\n}\n", [(b"b", None, [(b"x", b"1", None)])]),
+                                         (b"=1\nc=2\n", [(b"", b"1", None), (b"c", b"2", None)])):
+                    text = b"".join(nm + b"{\n" for nm in names) + inner_t + b"}\n" * len(names)
+                    f = inner_f
+                    for nm in reversed(names):
+                        f = [(nm, None, f)]
+                    lines += ["p root .", "p input " + hx(text), "p expect " + forest_text(f), "p node"]
+        lines.append("p end")
+        out.append(("fill:%d" % cap, lines))
+        lines = [fmt_line("brace")]
     return out
 
 
@@ -534,7 +582,8 @@ def layouts(tier, seed, scale):
 
 def scripts(tier, seed, scale=1):
     return stat_all(exhaustive(tier) + random_forests(tier, seed, scale) + dotted(tier) + onequote(tier, seed)
-                    + layouts(tier, seed, scale) + flagsets(tier, seed, scale) + bigvalues(tier))
+                    + layouts(tier, seed, scale) + flagsets(tier, seed, scale) + bigvalues(tier) + valsweep(tier)
+                    + pathfill(tier))
 
 
 def nontrivial(script, c_lines):
